@@ -22,7 +22,14 @@ Theorem C01_src_store_roundtrip_only_if :
     (forall s : store Ent, src_load Ent D parse (src_save Ent D dump s) = s) -> forall e, parse (dump e) = e.
 Proof. exact @src_load_save_only_if. Qed.
 
+Theorem C01_src_checkpoint_survives_roundtrips :
+  forall (Ent D : Type) (dump : Ent -> D) (parse : D -> Ent) (s : store Ent) (n : nat),
+    (forall e, parse (dump e) = e) ->
+    Nat.iter n (fun c => src_save Ent D dump (src_load Ent D parse c)) (src_save Ent D dump s) = src_save Ent D dump s.
+Proof. exact @src_roundtrips_fix_checkpoint. Qed.
+
 Print Assumptions C01_src_save_is_model_save.
 Print Assumptions C01_src_load_is_model_restore.
 Print Assumptions C01_src_store_roundtrip.
 Print Assumptions C01_src_store_roundtrip_only_if.
+Print Assumptions C01_src_checkpoint_survives_roundtrips.
